@@ -14,7 +14,7 @@ Import ListNotations.
 From TF Require Import Model.Crash Proofs.Crash.
 From TF Require Model.Dispatch Proofs.Dispatch.
 From Coq Require ZArith.
-From TF Require Lib.GoInt Lib.Bytes Proofs.Geometry Model.CRC Model.Sidecar Model.Resume Proofs.ResumeFile.
+From TF Require Lib.GoInt Lib.Bytes Proofs.Geometry Model.CRC Model.Sidecar Model.Resume Proofs.ResumeFile Proofs.ResumeChain.
 
 (* (a) along any chain of runs and kills - Restart events may occur anywhere,
    any number of times - every bitmap a run starts from is backed by the file *)
@@ -84,6 +84,23 @@ Theorem C04_unloaded_file_identical : forall h rq d src tail vnone br o,
   o_file o = src.
 Proof. exact resume_identical_unloaded. Qed.
 Print Assumptions C04_unloaded_file_identical.
+
+(* the whole property in one statement: ANY history of earlier runs - chunk
+   writes, marks and metadata flushes in any interleaving, the process killed at
+   any instant (inside a flush too), any number of restarts - followed by a
+   resumed run of the file ends with the source's bytes.  [refines] ties the
+   crash model's "chunk i is in the file" to the bytes and the loaded bitmap to
+   the sidecar the crash model has on disk. *)
+Theorem C04_chain_then_resume_identical :
+  forall ns evs s' fi x h rq d src tail vnone br o,
+    TF.Model.Crash.run (map TF.Model.Crash.fresh ns) evs = Some s' -> nth_error s' fi = Some x ->
+    geom_dom (rq_size rq) (rq_cs rq) -> zlen src = rq_size rq ->
+    recv_begin h rq d = Ret br ->
+    resume_outcome h rq d src tail vnone = Ret o ->
+    TF.Proofs.ResumeChain.refines (rq_cs rq) x (br_file br) src (sc_bitmap (br_sc br)) (br_total br) ->
+    o_file o = src.
+Proof. exact TF.Proofs.ResumeChain.chain_then_resume_identical. Qed.
+Print Assumptions C04_chain_then_resume_identical.
 
 (* non-vacuity: 5 bytes, chunk size 2, chunks 0 and 1 recorded and intact, chunk
    2 missing on disk (zeros after Truncate): the resumed run sends chunks 1 (the
